@@ -21,6 +21,7 @@ func init() {
 			"R3 the DWA handler forwards to the acknowledgement channel only on the ResultCode == Success edge and with a non-blocking select; " +
 			"R4 the DWR handler builds m.Answer(Success) with Origin-Host/Origin-Realm from the settings and writes it to the connection the request came from, and sm.New registers it for DWR. " +
 			"R2 also: the acknowledgement channel has a slot of one and is drained before each DWR is sent (an answer that arrives before the sender waits is neither lost nor attributed to a later request); R4 also: the DWR handler answers every request that passed DWR.Parse, on every path. " +
+			"R3 also: the DWA handler is registered after the acknowledgement channel is made, on every path and in the same activation — not inside a function literal that may run once per client. " +
 			"Not decided: wall-clock periods, answer patterns as histories.",
 		Rules: map[string]string{
 			"R1": "watchdog: DWR only on the WatchdogInterval timer case; started only after a successful handshake with EnableWatchdog",
